@@ -33,6 +33,8 @@ type nSub struct {
 	Pesum, Aufnasum float64
 	SumPE           float64
 	MaxAbsPE        float64 // largest |PE[i]| handed to the transport routine in this sub-step
+	PEBelowReach    float64 // sum of |PE[i]| of the layers the crop does not reach today (i >= min(root depth, groundwater table))
+	Reach           int     // int(min(WURZ, GRW)): the layers PhytoOut computes an uptake for
 	Schnorr         float64
 	Qdrain, Q1Drain float64
 	Drainloss       float64
@@ -68,6 +70,7 @@ type nRun struct {
 	Res          *proj.RunResult
 	Steps        map[int]int
 	unstableSeen bool
+	SameDayIrrDays int // days with two irrigation lines on which water was applied (nitroSameDayIrrConc)
 	sowOf, harOf map[int]int // observed sowing / harvest day per rotation entry (run_nitro_auto.go)
 }
 
@@ -110,6 +113,15 @@ func runNitroObserved(c *vh.Ctx, p *proj.Project) *nRun {
 			// wrote), not from the arrays of the code under test
 			cur.Depo = p.DepositionPerDay()
 			cur.IrrN = nitroIrrN(p, zeit)
+			if conc, ok := nitroSameDayIrrConc[p]; ok && !(nitroAutoOf[p] != nil && nitroAutoOf[p].AutoIrr) {
+				// several passes on one day: the N of the water applied today (mm x ppm x 0.01)
+				cur.IrrN = float64(conc) * g.EffectiveIRRIG * 10 * 0.01
+				if g.EffectiveIRRIG > 0 {
+					if _, _, lines := p.IrrigationNOn(zeit); lines > 1 {
+						r.SameDayIrrDays++
+					}
+				}
+			}
 			cur.SowDay = zeit == g.SAAT[g.AKF.Index]
 			cur.HarvestDay = zeit == g.ERNTE[g.AKF.Index]
 			cur.WumasStart = g.WUMAS
@@ -123,7 +135,7 @@ func runNitroObserved(c *vh.Ctx, p *proj.Project) *nRun {
 				return
 			}
 			s := nSub{Subd: subd, Wdt: wdt, Steps: steps, Pesum: g.PESUM, Aufnasum: g.AUFNASUM, Schnorr: g.SCHNORR, Qdrain: g.QDRAIN, Drainloss: g.DRAINLOSS,
-				Unstable: g.C1NotStable != "", Dsumm: g.DSUMM, Nh4sum: g.NH4Sum}
+				Unstable: g.C1NotStable != "", Dsumm: g.DSUMM, Nh4sum: g.NH4Sum, Reach: int(math.Min(float64(g.WURZ), g.GRW))}
 			for z := 0; z < 21; z++ {
 				s.OrgTot += g.NAOS[z] + g.NFOS[z]
 			}
@@ -137,6 +149,9 @@ func runNitroObserved(c *vh.Ctx, p *proj.Project) *nRun {
 				s.SumPE += g.PE[z]
 				if a := math.Abs(g.PE[z]); a > s.MaxAbsPE || math.IsNaN(a) {
 					s.MaxAbsPE = a
+				}
+				if z >= int(math.Min(float64(g.WURZ), g.GRW)) {
+					s.PEBelowReach += math.Abs(g.PE[z])
 				}
 				s.SumC1 += g.C1[z]
 				if g.C1[z] == 0 || g.C1[z] == g.DN[z]*wdt/2 {
